@@ -549,7 +549,7 @@ func runRefactorTest(prop *Property, repo string, obs []*Ob) map[string]any {
 			dirs[filepath.Dir(o.Pos[:i])] = true
 		}
 	}
-	var files []string
+	var files, others []string
 	for _, f := range all {
 		b, err := os.ReadFile(f)
 		if err != nil {
@@ -564,9 +564,21 @@ func runRefactorTest(prop *Property, repo string, obs []*Ob) map[string]any {
 				}
 			}
 		}
-		if rel || filepath.Base(filepath.Dir(f)) == prop.ID+"r" {
+		if filepath.Base(filepath.Dir(f)) == prop.ID+"r" {
 			files = append(files, f)
+		} else if rel {
+			others = append(others, f)
 		}
+	}
+	// the property's own set, filled up to refactorCap with patches of other sets that touch its
+	// packages (each patch costs one full load of the tree; the whole corpus against every
+	// property is what tools/try_refactor.sh runs, see DESIGN.md §10)
+	const refactorCap = 8
+	for _, f := range others {
+		if len(files) >= refactorCap {
+			break
+		}
+		files = append(files, f)
 	}
 	skipped := len(all) - len(files)
 	type res struct {
@@ -618,7 +630,7 @@ func runRefactorTest(prop *Property, repo string, obs []*Ob) map[string]any {
 			alarms = append(alarms, map[string]any{"patch": r.Name, "fired": r.Fired})
 		}
 	}
-	fmt.Printf("refactortest: %d/%d applicable behaviour-preserving patches leave the property's rules silent (of %d; %d more touch no package this property has obligations in)\n", silent, applicable, len(results), skipped)
-	return map[string]any{"patches": len(results), "skipped_other_packages": skipped, "applicable": applicable, "silent": silent, "alarms": alarms,
+	fmt.Printf("refactortest: %d/%d applicable behaviour-preserving patches leave the property's rules silent (of %d; %d more of the corpus are evaluated by tools/try_refactor.sh only)\n", silent, applicable, len(results), skipped)
+	return map[string]any{"patches": len(results), "not_run_here": skipped, "applicable": applicable, "silent": silent, "alarms": alarms,
 		"note": "each patch is a behaviour-preserving edit written by an independent agent (extract helper, rename, if↔switch, loop form, move); applied in memory; any rule that fires on it is a false alarm of the checker (the two known ones are explained in DESIGN.md §10)."}
 }
